@@ -21,7 +21,8 @@ def write(pid, tier, seed, level, coverage, assumptions, wall_s, violations):
         wall_s=round(float(wall_s), 3),
         violations=int(violations),
     )
-    d = os.path.join(env.VERIF_DIR, "evidence")
+    # runs against a scratch copy (mutant testing, VERIF_REPO set) must never overwrite real evidence
+    d = os.path.join(env.VERIF_DIR, "evidence" if env.REPO == "/repo" else "evidence_scratch")
     os.makedirs(d, exist_ok=True)
     path = os.path.join(d, pid + ".json")
     tmp = path + ".tmp"
